@@ -85,7 +85,9 @@ Definition level_step (sub : bool) (lv : level) (c : byte) : act :=
       else if byte_eqb c BQUOTE then Bad
       else Cont (addc lv c)
   | DQB =>
-      if byte_eqb c NL || byte_eqb c x01 then Bad   (* x01 is the internal escape byte of bash: observed to leak *)
+      (* x01 and x7f are internal marker bytes of bash; after a backslash in double quotes they were observed to
+         disturb the following expansion (x01) or to vanish in a here-string (x7f) *)
+      if byte_eqb c NL || byte_eqb c x01 || byte_eqb c x7f then Bad
       else if dq_escapable c then Cont (set_lx (addc lv c) DQ)
       else Cont (set_lx (addbytes lv [BSLASH; c]) DQ)
   | DQD => if byte_eqb c LPAREN then OpenSub (set_lx lv DQ) else Bad
